@@ -391,6 +391,12 @@ class Runner:
         sh.count("kind:" + c.m.label)
         sh.count("len:%d" % c.m.n)
         o = ev.get("o")
+        if o == "panic":
+            # the property promises an element, a clamped slice or an index error for EVERY index: an internal panic
+            # (e.g. arithmetic overflow on an extreme index) is neither
+            pm = (ev.get("panic") or {}).get("msg", "")
+            self.violation(c, "%s|panic" % c.key, "%s panicked inside the interpreter: %s" % (c.text, pm[:100]), self.replay(c))
+            return
         if o in INCONC:
             if o == "crash" and ev.get("why") not in ("alloc", "stack", "killed"):
                 sh.inconc("crash:" + str(ev.get("why")), c.text)
